@@ -93,6 +93,19 @@ def cases(tier, seed):
                                 continue
                             out.append(dict(sizes=list(sizes), E=E, k=1, support=sup, pattern=pat, fd=fd, mask=None,
                                             hermitian=True, repr=rep, vset=0, total=3))
+    # order-dependent block sparsity: the first-order term couples one pair of blocks only, another block joins at
+    # second order (three or more blocks; the deviation of a wrongly "decoupled" block shows from third order on)
+    for sizes in ((1, 1, 1), (2, 1, 1), (1, 1, 2)):
+        for E in lattice.level_patterns(sizes):
+            if len({tuple(e) for e in E}) < len(E):
+                continue
+            for pair in ("pair01", "pair02", "pair12"):
+                for second in ("dense", "offdiag"):
+                    for fd in ([], [0, 1, 2]):
+                        for rep in ("sympy", "dense", "csr") if sum(sizes) == 3 else ("dense", "csr"):
+                            out.append(dict(sizes=list(sizes), E=E, k=1, support=[[1], [2]], pattern="dense",
+                                            patterns={"1": pair, "2": second}, fd=fd, mask=None, hermitian=True,
+                                            repr=rep, vset=0, total=4))
     # every admissible symmetric mask on each block in turn
     for st in lattice.mask_structures(3 if tier == "quick" else 4, hermitian=True):
         for rep in ("sympy", "dense", "csr"):
